@@ -3,7 +3,7 @@
    implementation) and the property monitor [C26_monitor] (implementation
    observations only).  Definitions only. *)
 From WK Require Import Base.Base Base.Bytes.
-From WK Require Import Gen.Consts_C26 Model.Wire.
+From WK Require Import Gen.Consts_C26 Model.Wire Model.Pending.
 Open Scope N_scope.
 
 Inductive c26_case :=
@@ -18,7 +18,19 @@ Inductive c26_case :=
           (beyond : bool) (alloc_over : bool) (reenc : option bytes)
 (* WriteFrames(frames, max) = res; readback = ReadFrame repeated over the written bytes *)
 | C26Write (frames : list frame) (max : Z) (res : wres bytes)
-           (readback : list (wres (header * bytes))).
+           (readback : list (wres (header * bytes)))
+(* rpc.NewPendingTable(nshards) driven sequentially: channel k has capacity caps[k]
+   (0 = a nil / unbuffered channel); per op what the table returned; the number
+   of shards allocated and shardFor(id) for a few ids *)
+| C26Pend (nshards : Z) (caps : list N) (ops : list (pop * pobs))
+          (shards : N) (shard_probe : list (N * N))
+(* conn.Conn over a synchronous pipe with a scripted peer: per op what was
+   observed; then the results of the calls still uncollected at the end *)
+| C26Conn (script : list (cop * cobs)) (final : list (N * outcome))
+(* transport.Client / transport.Server over loopback, concurrent calls with
+   timeouts, handler errors and connection resets: per call its nonce, the
+   handler mode it asked for (0 echo, 1 error, 2 slow echo) and what Call returned *)
+| C26Stress (calls : list (bytes * N * outcome)).
 
 Definition obytes_eqb : option bytes -> option bytes -> bool := option_eqb bytes_eqb.
 
@@ -26,6 +38,28 @@ Definition reenc_of (r : wres header) : option bytes :=
   match r with WOk h => Some (encode_header h) | WErr _ => None end.
 Definition reenc_of_hb (r : wres (header * bytes)) : option bytes :=
   match r with WOk (h, _) => Some (encode_header h) | WErr _ => None end.
+
+Definition opt_eqb {A} (eqb : A -> A -> bool) (a b : option A) : bool := option_eqb eqb a b.
+Definition pobs_eqb (a b : pobs) : bool :=
+  match a, b with
+  | OUnit, OUnit | OPanic, OPanic => true
+  | OBool x, OBool y => Bool.eqb x y
+  | ONum x, ONum y => x =? y
+  | ORecv x, ORecv y => opt_eqb outcome_eqb x y
+  | _, _ => false
+  end.
+
+(* ---- stress runs: what a call may legitimately return -------------------------------
+   the handler replies "R" ‖ nonce (modes 0 and 2) or fails with "E" ‖ nonce (mode 1);
+   any LOCAL error (timeout, cancellation, stop, connection loss, busy) is allowed *)
+Definition E_local_min : N := 30.
+Definition reply_of (nonce : bytes) : bytes := 82 :: nonce.
+Definition errmsg_of (nonce : bytes) : bytes := 69 :: nonce.
+Definition stress_allowed (c : bytes * N * outcome) : bool :=
+  let '(nonce, mode, (p, e)) := c in
+  if e =? 0 then negb (mode =? 1) && bytes_eqb p (reply_of nonce)
+  else if e =? E_remote then (mode =? 1) && bytes_eqb p (errmsg_of nonce)
+  else E_local_min <=? e.
 
 (* ---- correspondence: the model run on the case's input vs what the code returned *)
 Definition C26_mismatch (c : c26_case) : bool :=
@@ -52,6 +86,13 @@ Definition C26_mismatch (c : c26_case) : bool :=
                   | WOk b => read_frames (length frames) b max
                   | WErr _ => []
                   end) readback)
+  | C26Pend nshards caps ops shards shard_probe =>
+      negb (list_eqb pobs_eqb (prun caps pinit (map fst ops)) (map snd ops)
+            && (shard_count nshards =? shards)
+            && forallb (fun p => shard_for nshards (fst p) =? snd p) shard_probe)
+  | C26Conn script final =>
+      let (s, ok) := crun cinit script in negb (ok && cfinal_ok s final)
+  | C26Stress calls => negb (forallb stress_allowed calls)
   end.
 
 (* ---- the property on implementation observations alone ------------------- *)
@@ -98,6 +139,113 @@ Definition mon_write (frames : list frame) (max : Z) (res : wres bytes)
        end
   else is_err res.
 
+(* -- (b) the pending table: a response reaches only the channel registered for
+   its id.  A checker over the implementation's observations: [owner] is what the
+   Store/Delete calls and the observed Complete results say is registered,
+   [mail] the messages addressed to each channel and not yet received. *)
+Record pm_state := PM { pm_owner : list (N * N); pm_mail : list (N * outcome);
+                        pm_closed : bool; pm_close_err : N }.
+
+Fixpoint take_mail (c : N) (l : list (N * outcome)) : option outcome * list (N * outcome) :=
+  match l with
+  | [] => (None, [])
+  | x :: r => if fst x =? c then (Some (snd x), r)
+              else let (m, r') := take_mail c r in (m, x :: r')
+  end.
+
+(* deliver unless the channel buffer is full (the documented drop) *)
+Definition post (caps : list N) (c : N) (o : outcome) (mail : list (N * outcome)) : list (N * outcome) :=
+  if count_chan c mail <? cap_of caps c then mail ++ [(c, o)] else mail.
+
+Definition pm_step (caps : list N) (s : pm_state) (oo : pop * pobs) : pm_state * bool :=
+  match oo with
+  | (PStore id c, ob) =>
+      if cap_of caps c =? 0 then (s, match ob with OPanic => true | _ => false end)
+      else if pm_closed s
+      then (PM (pm_owner s) (post caps c ([], pm_close_err s) (pm_mail s)) true (pm_close_err s),
+            match ob with OUnit => true | _ => false end)
+      else (PM ((id, c) :: remove_id id (pm_owner s)) (pm_mail s) false (pm_close_err s),
+            match ob with OUnit => true | _ => false end)
+  | (PDelete id, ob) =>
+      (PM (remove_id id (pm_owner s)) (pm_mail s) (pm_closed s) (pm_close_err s),
+       match ob with OUnit => true | _ => false end)
+  | (PComplete id p e, ob) =>
+      match lookup id (pm_owner s), ob with
+      | Some c, OBool true =>
+          (PM (remove_id id (pm_owner s)) (post caps c (p, e) (pm_mail s)) (pm_closed s) (pm_close_err s), true)
+      | None, OBool false => (s, true)
+      | _, _ => (s, false)
+      end
+  | (PFailAll e, ob) =>
+      (PM [] (fold_left (fun m ic => post caps (snd ic) ([], e) m) (pm_owner s) (pm_mail s)) true
+          (if pm_closed s then pm_close_err s else e),
+       match ob with OUnit => true | _ => false end)
+  | (PLen, ob) => (s, match ob with ONum n => n =? N.of_nat (length (pm_owner s)) | _ => false end)
+  | (PRecv c, ob) =>
+      let (m, rest) := take_mail c (pm_mail s) in
+      (PM (pm_owner s) rest (pm_closed s) (pm_close_err s),
+       match ob with ORecv x => opt_eqb outcome_eqb x m | _ => false end)
+  end.
+
+Fixpoint pm_run (caps : list N) (s : pm_state) (l : list (pop * pobs)) : bool :=
+  match l with
+  | [] => true
+  | oo :: r => let (s', ok) := pm_step caps s oo in ok && pm_run caps s' r
+  end.
+
+Definition mon_pend (caps : list N) (ops : list (pop * pobs)) : bool :=
+  pm_run caps (PM [] [] false 0) ops.
+
+(* -- (b) conn level: a call that returns a peer-originated result (a payload or a
+   remote error) returns what the peer wrote for the request id that carried this
+   call's request; request ids on the wire are pairwise distinct. *)
+Fixpoint reads_of (script : list (cop * cobs)) : list (N * N) :=   (* call k -> request id read by the peer *)
+  match script with
+  | [] => []
+  | (CStart k _, CoRead r _) :: rest => (k, r) :: reads_of rest
+  | _ :: rest => reads_of rest
+  end.
+Fixpoint writes_of (script : list (cop * cobs)) : list (N * outcome) :=   (* request id -> result it encodes *)
+  match script with
+  | [] => []
+  | (CRespond r st p, CoWrite true) :: rest => (r, response_msg r (Some (st, p))) :: writes_of rest
+  | (CRespondEmpty r, CoWrite true) :: rest => (r, response_msg r None) :: writes_of rest
+  | _ :: rest => writes_of rest
+  end.
+Fixpoint results_of (script : list (cop * cobs)) : list (N * outcome) :=
+  match script with
+  | [] => []
+  | (CStart k _, CoOutcome p e) :: rest | (CStartCanceled k _, CoOutcome p e) :: rest
+  | (CCancel k, CoOutcome p e) :: rest | (CAwait k, CoOutcome p e) :: rest => (k, (p, e)) :: results_of rest
+  | _ :: rest => results_of rest
+  end.
+Fixpoint request_echo_ok (script : list (cop * cobs)) : bool :=     (* the request frame carries the caller's payload *)
+  match script with
+  | [] => true
+  | (CStart _ p, CoRead _ q) :: rest => bytes_eqb p q && request_echo_ok rest
+  | _ :: rest => request_echo_ok rest
+  end.
+Fixpoint nodup_N (l : list N) : bool :=
+  match l with [] => true | x :: r => negb (existsb (N.eqb x) r) && nodup_N r end.
+
+Definition peer_originated (o : outcome) : bool :=
+  (snd o =? 0) || (snd o =? E_remote) || (snd o =? E_remote_notfound).
+
+Definition own_response (reads : list (N * N)) (writes : list (N * outcome)) (ko : N * outcome) : bool :=
+  if peer_originated (snd ko)
+  then match lookup (fst ko) reads with
+       | Some r => existsb (fun w => (fst w =? r) && outcome_eqb (snd w) (snd ko)) writes
+       | None => false
+       end
+  else true.
+
+Definition mon_conn (script : list (cop * cobs)) (final : list (N * outcome)) : bool :=
+  let reads := reads_of script in
+  let writes := writes_of script in
+  let results := results_of script ++ final in
+  nodup_N (map snd reads) && nodup_N (map fst results) && request_echo_ok script
+  && forallb (own_response reads writes) results.
+
 Definition C26_monitor (c : c26_case) : N :=
   match c with
   | C26Dec enc max res reenc => if mon_dec enc max res reenc then 0 else 1
@@ -105,4 +253,7 @@ Definition C26_monitor (c : c26_case) : N :=
   | C26Read stream max res consumed beyond alloc_over reenc =>
       if mon_read stream max res consumed beyond alloc_over reenc then 0 else 1
   | C26Write frames max res readback => if mon_write frames max res readback then 0 else 1
+  | C26Pend _ caps ops _ _ => if mon_pend caps ops then 0 else 1
+  | C26Conn script final => if mon_conn script final then 0 else 1
+  | C26Stress calls => if forallb stress_allowed calls then 0 else 1
   end.
